@@ -20,4 +20,8 @@ func Init() {
 func init() {
 	Engines["C16"] = Engine{Run: pluginw.RunOne, Cells: func(string) int { return pluginw.FloorCells() }}
 	Engines["C17"] = Engine{Run: pluginw.RunOne}
+	Engines["FIDELITY"] = Engine{Run: pluginw.RunFidelity}
 }
+
+// RealPlugin is the plugin side of the stub-fidelity cross-check.
+func RealPlugin(jobFile string) int { return pluginw.RealPluginMain(jobFile) }
